@@ -72,7 +72,7 @@ def spellings(shape, xp, yp):
     sh_names = {"s": ["xy", "xy1"], "e": ["xy2"], "m": ["cxy"], "l": ["wh"] + (["rxy"] if shape == "ellipse" else [])}
     for q in common:
         for sn in sh_names[q]:
-            for sep in (" ", ",", ", "):
+            for sep in (" ", ",", ", ", "\t", "\n", " ,", "  "):
                 def shf(ph, q=q, sn=sn, sep=sep):
                     parts = [f'{sn}="{ph[("x", q)]}{sep}{ph[("y", q)]}"']
                     for ax, pair in (("x", xp), ("y", yp)):
